@@ -40,7 +40,7 @@ std::string result_name(Result r) {
 // registered once per engine process, hashed by hx.
 static void reg_distinct(const Site& s, const char* dirn, const char* cls, Result r) {
   static std::unordered_set<uint64_t> seen;
-  uint64_t h = hx::fnv(s.op); h = hx::splitmix(h ^ hx::fnv(s.type)); h = hx::splitmix(h ^ (uint64_t) (uintptr_t) s.pol); h = hx::splitmix(h ^ (uint64_t) (uintptr_t) dirn); h = hx::splitmix(h ^ (uint64_t) (uintptr_t) cls); h = hx::splitmix(h ^ (uint64_t) r);
+  uint64_t h = hx::splitmix((uint64_t) (uintptr_t) s.op); h = hx::splitmix(h ^ (uint64_t) (uintptr_t) s.type); h = hx::splitmix(h ^ (uint64_t) (uintptr_t) s.pol); h = hx::splitmix(h ^ (uint64_t) (uintptr_t) dirn); h = hx::splitmix(h ^ (uint64_t) (uintptr_t) cls); h = hx::splitmix(h ^ (uint64_t) r);
   if (seen.insert(h).second) hx::distinct(std::string(s.op) + "|" + s.type + "|" + s.pol + "|" + dirn + "|" + cls + "|" + result_name(r));
 }
 
@@ -62,7 +62,7 @@ bool survives(const std::function<void()>& f, std::string& why) {
   return false;
 }
 
-std::string res_class(const KindInfo& K, const Ex& ex, bool special_operand) {
+const char* res_class(const KindInfo& K, const Ex& ex, bool special_operand) {
   if (ex.u != U_NONE) return UNDEF_NAME[ex.u];
   const Lim& L = K.lim;
   if (ex.v.inf()) return "inf-result";
@@ -132,7 +132,12 @@ bool verify_core(const KindInfo& K, const Site& s, Rounding_Dir dir, const char*
   if (ovf_code || (st.inf() && ex.v.fin())) {
     if (!L.bounded) NK_FAIL("ovf", "overflow-in-unbounded-type");
     bool below = xcmp(ex.v, L.lo) < 0, above = xcmp(ex.v, L.hi) > 0;
-    if (K.is_flt && ex.has_prod && ex.prod.fin() && (xcmp(ex.prod, L.lo) < 0 || xcmp(ex.prod, L.hi) > 0)) below = above = true;   // unfused float multiply-add/sub: an overflowing product saturates (sound, the relation was checked above)
+    // floating point multiply-add/sub is computed unfused (x*y rounded, then the sum rounded): a product or a result within
+    // one ulp of the largest finite value may legitimately saturate in two directed roundings (the relation was checked above)
+    if (K.is_flt && ex.has_prod && ex.prod.fin()) {
+      Q near = L.hi - L.hi / q_2exp((unsigned) (K.bits == 32 ? 22 : K.bits == 64 ? 51 : 62));
+      if (abs(ex.prod.q) > near || (ex.v.fin() && !ex.v.root && abs(ex.v.q) > near)) below = above = true;
+    }
     bool claims_neg = (rel == VR_LT && ovf_code) || st.k == XQ::MINF;   // V_LT_INF: exact < min ; stored -inf
     bool claims_pos = (rel == VR_GT && ovf_code) || st.k == XQ::PINF;
     if (ovf_code && rel == VR_LT && !(st.fin() && st.q == L.lo)) NK_FAIL("ovf", "lt-inf-but-stored-not-min");
@@ -187,9 +192,9 @@ static bool known_crash(const Site& s, const char* cls) {
 // A class whose first inputs all survived the child is not probed any further (a fork of a sanitized process is
 // expensive); should a later input of the class crash after all, the driver's crash path reports it.
 static std::map<std::string, int>& survived_classes() { static std::map<std::string, int> m; return m; }
-static bool probe(const Site& s, const char* cls, const std::function<void()>& f, std::string& why) {
+static bool probe(const Site& s, const char* cls, const std::function<void()>& f, std::string& why, int cap = 40) {
   int& n = survived_classes()[std::string(s.op) + "|" + s.type + "|" + s.pol + "|" + cls];
-  if (n >= 3) return true;
+  if (n >= cap) return true;
   bool ok = survives(f, why); if (ok) ++n; return ok;
 }
 static bool probe_report(const Site& s, const char* cls, const std::string& operands, const std::string& why) {
@@ -213,10 +218,11 @@ void run_binary_core(const KindInfo& K, const char* op, BinRun run, Ex (*exact)(
       const XQ& ay = dy[j];
       Ex ex = exact(ax, ay);
       if (!K.in_contract(ex.u)) { ++skipped; continue; }
-      std::string cl = res_class(K, ex, ax.inf() || ay.inf());
-      if (is_divlike && ex.u == U_NONE && ay.fin() && ax.fin() && (cl == "exact" || cl == "inexact"))
-        cl = std::string(::sgn(ay.q) < 0 ? "negative-divisor-" : "positive-divisor-") + (::sgn(ex_rem(ax, ay).v.q) == 0 ? "exact" : "inexact");
-      const char* cls = intern(cl);
+      const char* cls = res_class(K, ex, ax.inf() || ay.inf());
+      if (is_divlike && ex.u == U_NONE && ay.fin() && ax.fin() && (strcmp(cls, "exact") == 0 || strcmp(cls, "inexact") == 0)) {
+        bool ex_div = ::sgn(ex_rem(ax, ay).v.q) == 0;
+        cls = ::sgn(ay.q) < 0 ? (ex_div ? "negative-divisor-exact" : "negative-divisor-inexact") : (ex_div ? "positive-divisor-exact" : "positive-divisor-inexact");
+      }
       Desc desc = desc2(ax, ay);
       int nd = NDIRS + ((try_not_needed && ex.u == U_NONE && K.representable(ex.v)) ? 1 : 0);
       if (risky_bin(K, op, ax, ay)) {
@@ -225,7 +231,7 @@ void run_binary_core(const KindInfo& K, const char* op, BinRun run, Ex (*exact)(
         if (!probe(s, cls, [&]() { XQ st; for (int d = 0; d < nd; ++d) run(xs, i, ys, j, DIRS[d].d, st); }, why)) { probe_report(s, cls, desc(), why); continue; }
       }
       for (int d = 0; d < nd; ++d) {
-        if (g_verbose()) fprintf(stderr, "op: %s<%s/%s>(%s, ROUND_%s)\n", s.op, s.type.c_str(), s.pol, desc().c_str(), DIRS[d].name);
+        if (g_verbose()) fprintf(stderr, "op: %s<%s/%s>(%s, ROUND_%s)\n", s.op, s.type, s.pol, desc().c_str(), DIRS[d].name);
         XQ st; Result r = run(xs, i, ys, j, DIRS[d].d, st);
         verify_core(K, s, DIRS[d].d, cls, r, st, ex, desc);
         ++done;
@@ -257,7 +263,7 @@ void run_unary_core(const KindInfo& K, const char* op, UnRun run, Ex (*exact)(co
       if (!probe(s, cls, [&]() { XQ st; for (int d = 0; d < nd; ++d) run(xs, i, DIRS[d].d, st); }, why)) { probe_report(s, cls, desc(), why); continue; }
     }
     for (int d = 0; d < nd; ++d) {
-      if (g_verbose()) fprintf(stderr, "op: %s<%s/%s>(%s, ROUND_%s)\n", s.op, s.type.c_str(), s.pol, desc().c_str(), DIRS[d].name);
+      if (g_verbose()) fprintf(stderr, "op: %s<%s/%s>(%s, ROUND_%s)\n", s.op, s.type, s.pol, desc().c_str(), DIRS[d].name);
       XQ st; Result r = run(xs, i, DIRS[d].d, st);
       verify_core(K, s, DIRS[d].d, cls, r, st, ex, desc);
       ++done;
@@ -285,7 +291,7 @@ void run_2exp_core(const KindInfo& K, const char* op, E2Run run, Ex (*exact)(con
       // 2^e and 2^200 once e >= 200, so the oracle works with min(e, 200) (2^(2^32-1) does not fit in memory)
       Ex ex = exact(ax, (K.is_int && e > 200) ? 200 : e);
       if (!K.in_contract(ex.u)) { ++skipped; continue; }
-      const char* cls = intern(exp_class(K, e) + "_" + (ax.fin() ? (::sgn(ax.q) < 0 ? "neg" : ::sgn(ax.q) > 0 ? "pos" : "zero") : "special") + "_" + res_class(K, ex, ax.inf()));
+      const char* cls = intern(exp_class(K, e) + "_" + (ax.fin() ? (::sgn(ax.q) < 0 ? "neg" : ::sgn(ax.q) > 0 ? "pos" : "zero") : "special") + "_" + std::string(res_class(K, ex, ax.inf())));
       Desc desc = desce(ax, e);
       if (risky_e2(K, op, ax, e)) {
         if (known_crash(s, cls)) continue;
@@ -293,7 +299,7 @@ void run_2exp_core(const KindInfo& K, const char* op, E2Run run, Ex (*exact)(con
         if (!probe(s, cls, [&]() { XQ st; for (int d = 0; d < NDIRS; ++d) run(xs, i, e, DIRS[d].d, st); }, why)) { probe_report(s, cls, desc(), why); continue; }
       }
       for (int d = 0; d < NDIRS; ++d) {
-        if (g_verbose()) fprintf(stderr, "op: %s<%s/%s>(%s, ROUND_%s)\n", s.op, s.type.c_str(), s.pol, desc().c_str(), DIRS[d].name);
+        if (g_verbose()) fprintf(stderr, "op: %s<%s/%s>(%s, ROUND_%s)\n", s.op, s.type, s.pol, desc().c_str(), DIRS[d].name);
         XQ st; Result r = run(xs, i, e, DIRS[d].d, st);
         verify_core(K, s, DIRS[d].d, cls, r, st, ex, desc);
         ++done;
@@ -317,12 +323,11 @@ void run_fused_core(const KindInfo& K, const char* op, bool sub, FuRun run, cons
       if (!K.in_contract(ex.u)) { ++skipped; continue; }
       bool prod_ovf = ex.u == U_NONE && K.lim.bounded && ex.prod.fin() && (xcmp(ex.prod, K.lim.lo) < 0 || xcmp(ex.prod, K.lim.hi) > 0);
       if (K.is_flt && !K.c_fpu_nan && at.inf() && prod_ovf) { ++skipped; continue; }   // yields a NaN the policy declares it does not look for
-      std::string cl = res_class(K, ex, ax.inf() || ay.inf());
-      if (ex.u == U_NONE && at.inf()) cl = prod_ovf ? "inf-accumulator-product-overflow" : "inf-accumulator";
-      const char* cls = intern(cl);
+      const char* cls = res_class(K, ex, ax.inf() || ay.inf());
+      if (ex.u == U_NONE && at.inf()) cls = prod_ovf ? "inf-accumulator-product-overflow" : "inf-accumulator";
       Desc desc = desc3(at, ax, ay);
       for (int d = 0; d < NDIRS; ++d) {
-        if (g_verbose()) fprintf(stderr, "op: %s<%s/%s>(%s, ROUND_%s)\n", s.op, s.type.c_str(), s.pol, desc().c_str(), DIRS[d].name);
+        if (g_verbose()) fprintf(stderr, "op: %s<%s/%s>(%s, ROUND_%s)\n", s.op, s.type, s.pol, desc().c_str(), DIRS[d].name);
         XQ st; Result r = run(accs, k, xs, i, ys, j, DIRS[d].d, st);
         verify_core(K, s, DIRS[d].d, cls, r, st, ex, desc);
         ++done;
@@ -333,7 +338,7 @@ void run_fused_core(const KindInfo& K, const char* op, bool sub, FuRun run, cons
 }
 
 void run_convert_core(const KindInfo& To, const KindInfo& From, BinRun assign, BinRun construct, const void* xs) {
-  std::string ty = std::string(To.tname) + "<-" + From.tname;
+  const char* ty = intern(std::string(To.tname) + "<-" + From.tname);
   const char* polc = intern(std::string(To.pol) + "<-" + From.pol);
   Site s = { "assign", ty, polc }; Site sc = { "construct", ty, polc };
   size_t nx = From.size(xs); unsigned long done = 0;
@@ -341,17 +346,17 @@ void run_convert_core(const KindInfo& To, const KindInfo& From, BinRun assign, B
     const XQ ax = From.dec_at(xs, i);
     if (ax.nan() && To.is_flt && From.is_flt && !To.c_fpu_nan) { hx::count("skipped.outside_policy_contract"); continue; }   // float -> float copy of a NaN under a policy that does not look for NaN results
     Ex ex = ex_id(ax);
-    std::string cl = res_class(To, ex, false);
-    if (ex.u == U_NONE && ax.fin() && cl == "inexact" && To.is_int) cl = ::sgn(ax.q) < 0 ? "negative-fractional" : "positive-fractional";
-    const char* cls = intern(cl);
+    const char* cls = res_class(To, ex, false);
+    if (ex.u == U_NONE && ax.fin() && strcmp(cls, "inexact") == 0 && To.is_int) cls = ::sgn(ax.q) < 0 ? "negative-fractional" : "positive-fractional";
+    if (ex.u == U_NONE && ax.fin() && strcmp(cls, "inexact") == 0 && To.is_flt && abs(ax.q) < Q(1) / q_2exp(To.bits == 32 ? 126 : To.bits == 64 ? 1022 : 16382)) cls = "inexact-denormal-range";
     Desc desc = desc1(ax);
     int nd = NDIRS + ((ex.u == U_NONE && To.representable(ex.v)) ? 1 : 0);
     for (int d = 0; d < nd; ++d) {
-      { if (g_verbose()) fprintf(stderr, "op: assign<%s/%s>(%s, ROUND_%s)\n", ty.c_str(), polc, desc().c_str(), DIRS[d].name);
+      { if (g_verbose()) fprintf(stderr, "op: assign<%s/%s>(%s, ROUND_%s)\n", ty, polc, desc().c_str(), DIRS[d].name);
         XQ st; Result r = assign(xs, i, 0, 0, DIRS[d].d, st);
         verify_core(To, s, DIRS[d].d, cls, r, st, ex, desc); ++done; }
-      if (construct) {
-        if (g_verbose()) fprintf(stderr, "op: construct<%s/%s>(%s, ROUND_%s)\n", ty.c_str(), polc, desc().c_str(), DIRS[d].name);
+      if (construct && !(ax.nan() && strcmp(To.tname, From.tname) == 0 && strcmp(To.pol, From.pol) == 0)) {   // same-kind construct is a plain copy; the documentation is silent about the code for a copied NaN
+        if (g_verbose()) fprintf(stderr, "op: construct<%s/%s>(%s, ROUND_%s)\n", ty, polc, desc().c_str(), DIRS[d].name);
         XQ st; Result r = construct(xs, i, 0, 0, DIRS[d].d, st);
         verify_core(To, sc, DIRS[d].d, cls, r, st, ex, desc); ++done; }
     }
@@ -376,11 +381,13 @@ void run_specials_core(const KindInfo& K, SpRun run) {
 
 void run_compare_core(const KindInfo& A, const KindInfo& B, CmpRun run, SgnRun sg, const void* xs, const void* ys) {
   static const char* const NM[6] = { "equal", "not_equal", "less_than", "less_or_equal", "greater_than", "greater_or_equal" };
-  std::string ty = std::string(A.tname) + "_vs_" + B.tname, pol = std::string(A.pol) + "," + B.pol;
-  const std::string mixed = strcmp(A.pol, B.pol) == 0 ? "same-policy-" : "mixed-policy-";
+  // key by family pair (the precise types and policies are in the detail): the same comparison template serves a whole family
+  auto fam = [](const KindInfo& K) { return K.is_int ? "int" : K.is_flt ? "float" : "gmp"; };
+  std::string ty = std::string(fam(A)) + "_vs_" + fam(B), pol = std::string(A.kname()) + "," + B.kname();
+  const std::string mixed = (strcmp(A.pol, B.pol) == 0 && A.has_nan == B.has_nan && A.has_inf == B.has_inf) ? "same-policy-" : "mixed-policy-";   // raw kinds: the transparent policy of each type
   size_t nx = A.size(xs), ny = B.size(ys);
   std::vector<XQ> dy; for (size_t j = 0; j < ny; ++j) dy.push_back(B.dec_at(ys, j));
-  unsigned long done = 0;
+  unsigned long done = 0; int probe_budget = 12;
   for (size_t i = 0; i < nx; ++i) {
     const XQ ax = A.dec_at(xs, i);
     for (size_t j = 0; j < ny; ++j) {
@@ -390,10 +397,11 @@ void run_compare_core(const KindInfo& A, const KindInfo& B, CmpRun run, SgnRun s
       // special encoding (zero denominator, fake size field) reach GMP itself -> SEGV; run in a child first
       // likewise a GMP number compared with a floating point NaN / infinity (GMP "invalid operation", SIGFPE)
       if ((A.is_mpz || A.is_mpq || B.is_mpz || B.is_mpq) && (!ax.fin() || !ay.fin()) && (strcmp(A.pol, B.pol) != 0 || A.is_flt || B.is_flt)) {
-        const char* pcls = intern(mixed + (c == 2 ? "nan-operand" : "inf-operand")); Site ps = { "compare", ty, intern(pol) };
+        const char* pcls = intern(mixed + (c == 2 ? "nan-operand" : "inf-operand")); Site ps = { "compare", intern(ty), intern(pol) };
         if (known_crash(ps, pcls)) continue;
+        if (probe_budget-- <= 0) { hx::count("skipped.risky_comparison_not_probed"); continue; }   // a fork of a sanitized process is expensive: at most 12 per case
         std::string why;
-        if (!probe(ps, pcls, [&]() { run(xs, i, ys, j, c != 2); }, why)) { probe_report(ps, pcls, show(ax) + ", " + show(ay), why); continue; }
+        if (!probe(ps, pcls, [&]() { run(xs, i, ys, j, c != 2); }, why, 1 << 30)) { probe_report(ps, pcls, show(ax) + ", " + show(ay), why); continue; }   // whether GMP crashes depends on the operand values: always probe
       }
       CmpOut o = run(xs, i, ys, j, c != 2);
       bool want[6] = { c == 0, c != 0, c == -1, c == -1 || c == 0, c == 1, c == 1 || c == 0 };
